@@ -70,7 +70,7 @@ fn value() -> BoxedStrategy<String> {
 }
 
 fn decl() -> BoxedStrategy<String> {
-    (one_of(&["color", "width", "font-family", "content", "margin", "-webkit-x", "background", "transition", "grid-area", "é"]), value(), proptest::bool::weighted(0.1)).prop_map(|(p, v, imp)| format!("{p}: {v}{};", if imp { " !important" } else { "" })).boxed()
+    (one_of(&["color", "width", "font-family", "content", "margin", "-webkit-x", "background", "transition", "grid-area", "é"]), value()).prop_map(|(p, v)| format!("{p}: {v};")).boxed()
 }
 
 fn selector() -> BoxedStrategy<String> {
@@ -123,7 +123,7 @@ impl Prop for C09 {
         C09
     }
     fn rule(&self) -> String {
-        "stylesheets inside the stated subset: selector lists (type, universal, class, id, attribute with all operators, pseudo-classes/elements, combinators, escaped and digit-leading identifiers, namespaces), declarations built from identifiers (plain, escaped, non-ASCII), numbers with units, hex colours (3/4/6/8 digits), quoted strings of 0..8 arbitrary Unicode scalar values (quotes, backslashes, controls, private use, astral, combining), url() quoted and unquoted, simple function calls, !important; @media/@supports/@font-face/@keyframes and comments. Oracle: o1 = expanded(scss S), o2 = expanded(css o1); o2 must equal o1 up to blank lines or, failing that, have the same token stream under the independent tokenizer (escape spelling may differ, the denoted tokens may not), and the decoded string/url tokens of o1 and o2 (independent tokenizer) must be equal. Non-trivial: o1 holds a rule and an escape, non-ASCII text, an at-rule, a combinator or an attribute selector; distinct by source".into()
+        "stylesheets inside the stated subset: selector lists (type, universal, class, id, attribute with all operators, pseudo-classes/elements, combinators, escaped and digit-leading identifiers, namespaces), declarations built from identifiers (plain, escaped, non-ASCII), numbers with units, hex colours (3/4/6/8 digits), quoted strings of 0..8 arbitrary Unicode scalar values (quotes, backslashes, controls, private use, astral, combining), url() quoted and unquoted, simple function calls; @media/@supports/@font-face/@keyframes and comments. Oracle: o1 = expanded(scss S), o2 = expanded(css o1); o2 must equal o1 up to blank lines or, failing that, have the same token stream under the independent tokenizer (escape spelling may differ, the denoted tokens may not), and the decoded string/url tokens of o1 and o2 (independent tokenizer) must be equal. Non-trivial: o1 holds a rule and an escape, non-ASCII text, an at-rule, a combinator or an attribute selector; distinct by source".into()
     }
     fn assumptions(&self) -> Vec<String> {
         vec!["cases whose first compilation fails are outside the domain (discarded and counted)".into()]
